@@ -395,6 +395,10 @@ func lexTaskCommands(l *Lexer) lexFn {
 		case r == '\n':
 			// If there's a newline, might be more commands on the next line
 			l.backup()
+			if strings.HasSuffix(l.all(), "\r") {
+				// The line ends in \r\n, the carriage return is not part of the command
+				l.pos--
+			}
 			l.emit(token.COMMAND)
 			l.skipWhitespace()
 		case strings.HasPrefix(l.rest(), token.LINTERP.String()):
